@@ -44,6 +44,20 @@ type c27In struct {
 var c27WireTypes = []string{"float32", "float64", "int16", "int32", "int64", "uint8", "uint16", "uint32", "uint64", "string16", "byte"}
 var c27Names = []string{"Open", "High", "Low", "Close", "Volume", "Bid", "Ask", "x", "A", "b1", "Nanoseconds", "Ticks", "V2"}
 
+// c27Canonical mirrors Wire.key_canonical (decode_key k = k) WITHOUT calling the code under test:
+// the first two colon-separated parts, an empty/missing category replaced by the default schema.
+func c27Canonical(k string) bool {
+	parts := strings.Split(k, ":")
+	cat := ""
+	if len(parts) >= 2 {
+		cat = parts[1]
+	}
+	if cat == "" {
+		cat = "Symbol/Timeframe/AttributeGroup"
+	}
+	return parts[0]+":"+cat == k
+}
+
 func c27Key(b c27Bucket) io.TimeBucketKey {
 	if b.Zero {
 		return io.TimeBucketKey{}
@@ -556,7 +570,7 @@ func c27Run(raw json.RawMessage) (res Result, err error) {
 		if !(reflect.DeepEqual(h.names, hs[0].names) && reflect.DeepEqual(h.types, hs[0].types)) {
 			sameShapes = false
 		}
-		if io.NewTimeBucketKeyFromString(obs.Keys[i]).String() != obs.Keys[i] {
+		if !c27Canonical(obs.Keys[i]) {
 			canonical = false
 		}
 	}
